@@ -30,6 +30,7 @@ def GasShiftInv (cfg : Cfg K V) (p : Prog K V C E α) : Prop :=
 /-- the handlers of every transaction are gas-shift invariant; the fee step is handed the start
     level and must be invariant when both are shifted together -/
 structure GasBlind (cfg : Cfg K V) (hs : Handlers K V C E T H D) : Prop where
+  validate : ∀ tx, GasShiftInv cfg (hs.validate tx)
   deliver : ∀ tx, GasShiftInv cfg (hs.deliver tx)
   fee : ∀ tx (g d : Int) (s s' : St K V) (m : Vol C V) (e : E), ShiftSt d s s' →
     ((hs.fee tx (g + d)).run cfg s' m e).1 = ((hs.fee tx g).run cfg s m e).1 ∧
@@ -38,7 +39,7 @@ structure GasBlind (cfg : Cfg K V) (hs : Handlers K V C E T H D) : Prop where
 
 /-- no deliver-path program writes a volatile cell (T3 table `volatileWrites`) -/
 def DeliverNoVset (hs : Handlers K V C E T H D) : Prop :=
-  ∀ tx, (hs.deliver tx).NoVset ∧ ∀ g, (hs.fee tx g).NoVset
+  ∀ tx, (hs.validate tx).NoVset ∧ (hs.deliver tx).NoVset ∧ ∀ g, (hs.fee tx g).NoVset
 
 /-- no mempool-path program writes a volatile cell -/
 def CheckNoVset (hs : Handlers K V C E T H D) : Prop :=
